@@ -3,7 +3,7 @@ from la_common import *
 from C05 import leibniz
 
 EXPLANATION = ('C15: real QR_Decomposition (Householder_Matrix, block constructor, Sub_Matrix, products) on a symbolic non-singular matrix: Q^T Q = I, R upper triangular, Q R = M on every sign path, divisors non-zero; '
-               'reachability of exit() in Find_Eigenvector_Rayleigh / Eigensystem for a symmetric matrix with an exact eigenvalue.')
+               'reachability of exit() in Find_Eigenvector_Rayleigh / Eigensystem for a symmetric matrix with an exact eigenvalue; inductive step over the sweep loop of Eigenvalues (arbitrary iterate, arbitrary factors of the sweep): it returns only when the sub-diagonal mass of R*Q is at most 1e-12 of its diagonal mass, and returns that diagonal.')
 BOUNDS = {'quick': {'n_qr': [1, 2]}, 'thorough': {'n_qr': [1, 2, 3]}}
 NOT_DECIDED = ['convergence of the unshifted QR iteration (>= 11 sweeps before the first test), termination of the inverse iteration, NaN from 0/0 in Relative_Difference: data-dependent iteration counts',
                'the Jacobi-reference / trace / determinant clauses of Eigenvalues (need the converged iteration)', 'n beyond the bound, rounding']
@@ -34,6 +34,57 @@ def job_qr(n):
     if nret == 0: res.append(ob('qr/%d/reach' % n, 'broken', detail='no returning path'))
     return res
 
+def job_eigen_loop(n):
+    """inductive step over the QR iteration of Eigenvalues: at the loop header the iterate A (in memory) is replaced by an ARBITRARY n x n matrix and the sweep counter by an arbitrary value past the
+       ten warm-up sweeps; one real sweep (QR_Decomposition, R*Q, convergence test) is executed.  The function returns only when the sub-diagonal mass of the new iterate is at most 1e-12 of its
+       diagonal mass, and what it returns is that diagonal; the back edge advances the counter by one."""
+    res = []; tag = 'eigenvalues/loop-step/n%d' % n; S = syms('s', n, n); I0 = z3.Int('h_i'); info = {}
+    fns = [k for k in G['m'].funcs if '11EigenvaluesERKNS_6MatrixE' in k]
+    if len(fns) != 1: return [ob(tag + '/function', 'broken', detail=str(fns))]
+    f = G['m'].funcs[fns[0]]; heads = [b for b in loop_headers(f) if any(I.op == 'phi' and I.dest.lstrip('%').split('.')[0] == 'i' for I in f.blocks[b])]
+    if len(heads) != 1 or '%A' not in [I.dest for I in f.blocks[f.order[0]] if I.op == 'alloca']: return [ob(tag + '/loop-state', 'undecided', key='C15/eigenvalues/loop-step', detail='sweep loop / iterate not found: %s' % heads)]
+    def handler(it, f_, blk, regs, st):
+        for I in f_.blocks[blk]:
+            if I.op == 'phi' and I.dest.lstrip('%').split('.')[0] == 'i': regs[I.dest] = I0; info['i'] = I.dest
+            elif I.op == 'phi': raise Unsupported('unexpected loop-carried register %s in Eigenvalues' % I.dest)
+        a = regs['%A']; rows = st.load(a, 8); ptrs = []
+        for j in range(n):
+            d = st.load(rows + 24 * j, 8); ptrs.append(d)
+            for k in range(n): st.store(d + 8 * k, 8, S[j][k])
+        info['ptrs'] = ptrs; st.pc += [I0 >= 11, I0 <= 198]; st.events.append(('havoc-done',))
+    M0 = [[2.0 + j if j == k else 0.5 for k in range(n)] for j in range(n)]
+    Qs = syms('q', n, n); Rs = syms('r', n, n)
+    def put_matrix(st, addr, M):
+        rows = st.alloc(24 * n)
+        for j in range(n):
+            d = st.put_doubles(M[j]); st.store(rows + 24 * j, 8, d); st.store(rows + 24 * j + 8, 8, d + 8 * n); st.store(rows + 24 * j + 16, 8, d + 8 * n)
+        st.store(addr, 8, rows); st.store(addr + 8, 8, rows + 24 * n); st.store(addr + 16, 8, rows + 24 * n); st.store(addr + 24, 4, n); st.store(addr + 28, 4, n)
+    def any_qr(it, args, st, depth):
+        # the factors of the sweep are arbitrary matrices here: their defining equations are the subject of job_qr; this job is about what the loop does with them
+        if not any(e[0] == 'havoc-done' for e in st.events): return NotImplemented
+        put_matrix(st, args[0], Qs); put_matrix(st, args[0] + 32, Rs); st.events.append(('anyqr',)); return [(st, None)]
+    it, rs = run_la(72, A=M0, havoc={(fns[0], heads[0]): handler}, intercept={'@_ZN10libphysica16QR_DecompositionERKNS_6MatrixE': any_qr}, limits=Limits(max_steps=30000000, max_paths=3000, feas_ms=2000, max_seconds=400))
+    mv = {'S': flat(S), 'Q': flat(Qs), 'R': flat(Rs), 'shapeA': [n, n], 'op': 72, 'h_i': I0, 'loop_step': 1}; nret = nback = 0
+    for pi, r in enumerate(rs):
+        if r.end is None:
+            nret += 1; cells = [[r.st.mem.get(info['ptrs'][j] + 8 * k) for k in range(n)] for j in range(n)]      # the iterate after the sweep (its storage is released on return; the cells are still there)
+            if any(c is None for row in cells for c in row): res.append(ob('%s/iterate-readable[%d]' % (tag, pi), 'undecided', key='C15/eigenvalues/loop-step', detail='iterate storage moved')); continue
+            A1 = [[toR(c[1]) for c in row] for row in cells]; off = sum(Abs(A1[k][j]) for j in range(n) for k in range(j + 1, n)); dg = sum(Abs(A1[j][j]) for j in range(n))
+            hyp = r.pc + alg_assumptions(r.st)
+            res.append(prove('%s/returns-only-when-nearly-triangular[%d]' % (tag, pi), hyp, off <= RV(1e-12) * dg, 60000, mv, key='C15/eigenvalues/loop-exit', tactic='nra', sample=(nret == 1)))
+            res.append(prove('%s/returns-the-diagonal[%d]' % (tag, pi), hyp, z3.And(*[toR(r.out[j]) == A1[j][j] for j in range(n)]), 60000, mv, key='C15/eigenvalues/loop-value', tactic='nra'))
+        elif r.end.kind == 'backedge':
+            nback += 1; be = [e for e in r.events if e[0] == 'backedge'][-1][2]
+            res.append(prove('%s/back-edge-advances-the-sweep-counter[%d]' % (tag, pi), r.pc, toI(be[info['i']]) == I0 + 1, 20000, mv, key='C15/eigenvalues/loop-counter'))
+        elif r.end.kind == 'exit':
+            # leaving through exit(): only "did not converge" at the last sweep, or QR_Decomposition's own guards on a singular iterate
+            res.append(ob('%s/exit-path[%d]' % (tag, pi), 'discharged', key='C15/eigenvalues/loop-step', detail='exit path (singular iterate or sweep cap): %s' % r.end))
+        elif r.end.kind != 'cutoff':
+            res.append(prove('%s/no-%s[%d]' % (tag, r.end.kind, pi), r.pc, z3.BoolVal(False), 20000, mv, key='C15/eigenvalues/' + r.end.kind, detail=str(r.end)))
+    res.append(ob(tag + '/coverage', 'discharged' if nret and nback else 'broken', key='C15/coverage', detail='%d returning, %d back-edge paths from the arbitrary iterate' % (nret, nback)))
+    return res
+def Abs(x): return z3.If(x >= 0, x, -x)
+
 def job_rayleigh(n):
     """is exit() reachable in the inverse iteration for a symmetric matrix when lambda is an exact eigenvalue?  (diagonal M, lambda = M[0][0])"""
     res = []; d = [z3.Real('d%d' % i) for i in range(n)]
@@ -48,7 +99,7 @@ def job_rayleigh(n):
     return res
 
 def jobs(ctx):
-    module(ctx); J = [(job_qr, (n,)) for n in BOUNDS[ctx.tier]['n_qr']] + [(job_rayleigh, (2,))]
+    module(ctx); J = [(job_qr, (n,)) for n in BOUNDS[ctx.tier]['n_qr']] + [(job_rayleigh, (2,)), (job_eigen_loop, (2,))]
     return J
 
 def validate(ctx):
@@ -64,6 +115,23 @@ def validate(ctx):
 
 def replay(ctx, o):
     m = o['model'] or {}; key = o['key']
+    if m.get('loop_step'):
+        # the model is an arbitrary iterate of the sweep loop, not an input: native confirmation = Eigenvalues on symmetric matrices with eigenvalues separated in magnitude and of either sign (the property's quantifier) against numpy
+        import numpy as np
+        worst = (0.0, None)
+        for lam in ([-3.0, 1.0], [3.0, -1.0], [-5.0, -2.0], [4.0, 1.5], [-4.0, 2.0, 0.7], [5.0, -2.0, -0.6], [-6.0, -2.5, 1.0], [2.0, -0.9, 0.4, -0.15]):
+            k = len(lam)
+            for t in (0.3, 1.1):
+                Qm = np.eye(k)
+                for a in range(k):
+                    for b in range(a + 1, k):
+                        Gm = np.eye(k); c, s_ = math.cos(t + a + 2 * b), math.sin(t + a + 2 * b); Gm[a, a] = c; Gm[b, b] = c; Gm[a, b] = -s_; Gm[b, a] = s_; Qm = Qm @ Gm
+                Mm = Qm @ np.diag(lam) @ Qm.T; Mm = (Mm + Mm.T) / 2
+                r = native_la(ctx, 72, [[float(x) for x in row] for row in Mm])
+                if r['status'] != 'ok': return True, 'native Eigenvalues(Q diag(%s) Q^T): %s' % (lam, r['status'])
+                e = max(abs(x - y) for x, y in zip(sorted(r['out'][:k]), sorted(lam)))
+                if e > worst[0]: worst = (e, (lam, sorted(r['out'][:k])))
+        return worst[0] > 1e-8, 'native Eigenvalues on symmetric matrices Q diag(lambda) Q^T: worst deviation %.3g for lambda = %s' % (worst[0], worst[1])
     if 'A' not in m: return False, 'no model'
     n = m['shapeA'][0]; A = model_mat(m, 'A', n, n)
     if key == 'C15/eigensystem/exit-on-exact-eigenvalue':
